@@ -81,3 +81,17 @@ def foreign(ctx):
         if r["diff"]:
             ctx.violation("foreign:" + r["shape"], "C05 foreign hello: " + r["diff"][:300], r)
     ctx.notes["foreign"] = summ[0]
+
+
+def echconn_slice(ctx, select, cfgs=("MCEchConn_q.cfg",), label="slice"):
+    """Replay the histories of EchConn.tla that are relevant to another property (its Conn-level clause)."""
+    import c06
+    cases = []
+    for cfg in cfgs:
+        cases += ctx.emit("MCEchConn", cfg, workers=8, timeout=900, name=label + cfg.replace(".cfg", ""))
+    cases = [c for c in cases if select(c)]
+    if not cases:
+        raise vlib.Inconclusive("no EchConn histories selected")
+    c06.replay(ctx, cases, label)
+    ctx.notes["echconn_histories"] = ctx.notes.get("echconn_histories", 0) + len(cases)
+    ctx.sample({"echconn_history": cases[len(cases) // 2]})
